@@ -132,6 +132,11 @@ class DateTime(datetime.datetime, Date):
         if tz is not None:
             tz = pendulum._safe_timezone(tz, dt=dt)
 
+            if dt.tzinfo is not None:
+                # Keep the instant the aware datetime denotes, whatever
+                # tzinfo implementation it comes from (pytz never sets fold).
+                dt = tz.convert(dt)
+
         return cls.create(
             dt.year,
             dt.month,
